@@ -51,13 +51,22 @@ PROPS["C01"] = {
     "modules": ["Hertz.Props.C01"],
     "rule": "Streams of 1..6 pipelined requests from a grammar generator (methods, targets, repeated/mixed-case/near-miss framing names incl. "
             "bit-5 neighbours, obs-fold, body sizes 0..65537 around 4 KiB/8 KiB, Content-Length or chunked with arbitrary chunk sizes, hex case, "
-            "leading zeros, trailers, Expect: 100-continue, close), 85% well-formed, delivered under random segmentation; plus raw request heads.",
+            "leading zeros, trailers, Expect: 100-continue, close), 85% well-formed, delivered under random segmentation; plus raw request heads. "
+            "Trailer generator (op servet): chunked requests whose trailer section differs from the announcement (fields not announced, announced names "
+            "without field, names announced / sent twice, other letter case, forbidden names, OWS and obs-fold in values) and whose Trailer field is "
+            "spelled in every list form (a,b / a ,b / empty elements / leading and trailing comma / HTAB / two Trailer fields / forbidden names). "
+            "Transport configurations (op netserve): well-formed streams of 1..4 requests (+ closing request), bodies up to 65537 bytes, through the real "
+            "netpoll transport, the standard transport and the standard transport with WithSenseClientDisconnection(true) over loopback TCP under "
+            "several write segmentations, also with the next request written while the first handler is still running (hold).",
     "level_text": "Lean model of the HTTP/1 request reader and keep-alive loop mirrors the Go code and is compared with the real server on every case; "
                   "theorems: framing names are recognised exactly by ASCII-case-insensitive equality (table regenerated from source), every handled "
                   "request is followed by exactly its own response, in order. The implementation's view of each request is checked against an "
                   "independent strict RFC 7230 decoder on every well-formed stream.",
-    "level_note": _H1_NOTE + " Open: model-refines-strict-decoder theorem (checked per case).",
-    "assumptions": ["standard transport", "DisablePreParseMultipartForm"],
+    "level_note": _H1_NOTE + " Open: model-refines-strict-decoder theorem (checked per case). Trailers: trailer_view / serve_roundtrip_any_trailers / "
+                  "trailer_decl_spellings_partial proved for every announcement and every trailer section; announced names are computed by the specification "
+                  "(RFC 7230 list rule over all Trailer fields), not taken from the implementation.",
+    "assumptions": ["netpoll reader and the sense-client-disconnection goroutine are not modelled: they are run over loopback TCP against the model's single answer (tags netpoll:/std:/sense:, +hold)",
+                    "DisablePreParseMultipartForm"],
 }
 PROPS["C02"] = {
     "modules": ["Hertz.Props.C02"],
